@@ -3,12 +3,15 @@
 package main
 
 import (
+	"encoding/json"
 	"flag"
 	"fmt"
 	"os"
 	"path/filepath"
 	"runtime/debug"
 	"strconv"
+
+	"golang.org/x/tools/go/ssa"
 
 	"verif/internal/kit"
 	"verif/internal/load"
@@ -20,6 +23,7 @@ func main() {
 	tier := flag.String("tier", "quick", "quick|thorough")
 	repo := flag.String("repo", "/repo", "repository to analyse")
 	verif := flag.String("verif", "", "verif directory (default: directory above the binary)")
+	genAnchors := flag.Bool("gen-anchors", false, "write anchors.json (the reference table used to follow pure renames) from the current tree")
 	flag.Parse()
 	if t := os.Getenv("VERIF_TIER"); t == "quick" || t == "thorough" {
 		*tier = t
@@ -46,6 +50,38 @@ func main() {
 		}
 	}
 	prog, err := load.Load(*repo)
+	if err == nil && *genAnchors {
+		t := prog.BuildAnchors(kit.RawFuncID, kit.CallID)
+		b, _ := json.MarshalIndent(t, "", " ")
+		if werr := os.WriteFile(filepath.Join(*verif, "anchors.json"), b, 0o644); werr != nil {
+			fmt.Println(werr)
+			os.Exit(2)
+		}
+		fmt.Printf("anchors.json: %d functions, %d structs\n", len(t.Funcs), len(t.Structs))
+		return
+	}
+	if err == nil {
+		anchorsPath := filepath.Join(*verif, "anchors.json")
+		if _, serr := os.Stat(anchorsPath); serr != nil {
+			exe, _ := os.Executable()
+			anchorsPath = filepath.Join(filepath.Dir(filepath.Dir(exe)), "anchors.json")
+		}
+		if t, aerr := load.ReadAnchors(anchorsPath); aerr == nil {
+			rn := prog.DetectRenames(t, kit.RawFuncID, kit.CallID)
+			prog.Renames = rn
+			for cur, canon := range rn.FuncToCanonical {
+				kit.Canonical[cur] = canon
+			}
+			byID := map[string]*ssa.Function{}
+			for _, f := range prog.OwnFunctions() {
+				byID[kit.FuncID(f)] = f
+			}
+			prog.FuncByID = func(id string) *ssa.Function { return byID[id] }
+			for _, n := range rn.Notes {
+				fmt.Println("rename followed:", n)
+			}
+		}
+	}
 	code := 0
 	for _, id := range ids {
 		rep := kit.NewReport(id, *tier, seed)
